@@ -79,10 +79,13 @@ func judgeC01(sc *Scope, rings [][]ref.P, acc *Acc) []Problem {
 					continue
 				}
 				if ea, eb, found := firstCrossing(edgesOf(dec)); found {
-					m := model(sc.G, units, z)
-					sig := fmt.Sprintf("crossing:routed-centre-visits=%d", m.MaxV)
-					if m.MaxV >= 3 {
-						sig = "F5:crossing,routed-centre-visits>=3"
+					sig := "crossing:coarse-real-grid"
+					if !(sc.G.Real && sc.G.ResDeepest > 1<<30) {
+						m := model(sc.G, units, z)
+						sig = fmt.Sprintf("crossing:routed-centre-visits=%d", m.MaxV)
+						if m.MaxV >= 3 {
+							sig = "F5:crossing,routed-centre-visits>=3"
+						}
 					}
 					probs = append(probs, Problem{Sig: sig, What: fmt.Sprintf("id %d: edges %v and %v cross (pixel indices)", z, ea, eb), IDs: ids, Cfg: cfg, Got: res})
 				}
@@ -115,6 +118,7 @@ func scopesValid(thorough bool) []Scope {
 	scs = append(scs,
 		Scope{Name: "R-half-2:NetherlandsRDNewQuad-z14", GS: realGS("NetherlandsRDNewQuad", 14, 2, 155000, 463000), Spec: lat.Spec{Points: lat.Window(2, 2, 2), MaxK: k(3, 5), Valid: true}, IDSets: [][]int{{14}}, Cfgs: keepCfgs},
 		Scope{Name: "R-half-2:WebMercatorQuad-z17", GS: realGS("WebMercatorQuad", 17, 2, 550000.1, 6800000.2), Spec: lat.Spec{Points: lat.Window(2, 2, 2), MaxK: k(3, 5), Valid: true}, IDSets: [][]int{{17}}, Cfgs: keepCfgs},
+		Scope{Name: "R-holes-2:WebMercatorQuad-z17", GS: realGS("WebMercatorQuad", 17, 2, 550000.1, 6800000.2), Spec: lat.Spec{Points: lat.Window(2, 2, 2), MaxK: 4, Valid: true, MaxHoles: 1, HoleMaxK: 3}, IDSets: [][]int{{17}}, Cfgs: keepCfgs},
 		Scope{Name: "R-multi:NetherlandsRDNewQuad-z12-14", GS: realGS("NetherlandsRDNewQuad", 14, 2, 20000.3, 380000.7), Spec: lat.Spec{Points: scale(lat.Window(2, 2, 2), 4), MaxK: k(3, 4), Valid: true}, IDSets: [][]int{{12, 13, 14}, {14}, {12, 14}}, Cfgs: keepCfgs},
 	)
 	// families of larger polygons (pinched necks with holes, lake + ditch, C-shapes): see families.go
@@ -129,6 +133,12 @@ func scopesValid(thorough bool) []Scope {
 	return scs
 }
 
+// scopesC01: the common valid scopes plus the quadrant-border family on a coarse real grid (no
+// reference router there: its int64 arithmetic would overflow; C01's oracle does not need it)
+func scopesC01(thorough bool) []Scope {
+	return append(scopesValid(thorough), borderScopes(thorough)...)
+}
+
 // scale multiplies lattice points (used to put a coarse window on a finer grid)
 func scale(pts []ref.P, f int64) []ref.P {
 	out := make([]ref.P, len(pts))
@@ -139,7 +149,7 @@ func scale(pts []ref.P, f int64) []ref.P {
 }
 
 func init() {
-	register(&Prop{ID: "C01", PinnedFrom: []string{"C01"}, Scopes: scopesValid, Judge: judgeC01,
+	register(&Prop{ID: "C01", PinnedFrom: []string{"C01"}, Scopes: scopesC01, Judge: judgeC01,
 		Rule: "every valid polygon of each lattice scope (all simple CCW shells incl. every rotation, holes strictly inside and disjoint) x id sets x configs is snapped by the real code; all boundary edges of one id are tested pairwise for a proper crossing in exact integer arithmetic; non-trivial input = the reference router inserts a vertex or visits a centre twice"})
 	_ = snap.Config{}
 }
